@@ -157,6 +157,52 @@ example :
       = [(.bool false, .loaded), (.bool true, .cached), (.val (some 2), .cached), (.rows [2, 3], .cached), (.val (some 1), .cached), (.nat 2, .cached)] := by
   decide
 
+/-! ### batch loading into collections with pending changes -/
+
+/-- a session's partial knowledge of a collection with pending changes is consistent with the link rows: every known item is a row or
+    one of the member's own unflushed additions, additions are known items, removed items are not known -/
+def PendingOk (rows : List Oid) (p : Pending) : Prop :=
+  (∀ i ∈ p.items, i ∈ rows ∨ i ∈ p.added) ∧ (∀ i ∈ p.added, i ∈ p.items) ∧ (∀ i ∈ p.removed, i ∉ p.items ∧ i ∈ rows)
+
+/-- for EVERY member of a many-to-many batch load whose pending state is consistent: merging the link rows with the member's OWN
+    additions subtracted in the phantom check never raises, and the collection then holds exactly the database rows with the member's own
+    pending changes applied — whatever the other members of the batch have pending (they do not occur in the statement): batched and
+    one-by-one loading agree -/
+theorem C23_batch_merge (rows : List Oid) (p : Pending) (h : PendingOk rows p) :
+    ∃ l, mergeLinks rows p p.added = .ok l ∧ ∀ i, i ∈ l ↔ i ∈ expectedItems rows p := by
+  obtain ⟨h1, h2, h3⟩ := h
+  have hnil : p.items.filter (fun i => decide (i ∉ rows) && decide (i ∉ p.added)) = [] := by
+    apply List.filter_eq_nil_iff.mpr
+    intro i hi
+    rcases h1 i hi with hr | ha
+    · simp [hr]
+    · simp [ha]
+  refine ⟨p.items ++ rows.filter (fun i => decide (i ∉ p.items) && decide (i ∉ p.removed)), by simp only [mergeLinks, hnil], ?_⟩
+  intro i
+  simp only [expectedItems, List.mem_append, List.mem_filter, Bool.and_eq_true, decide_eq_true_eq]
+  constructor
+  · rintro (hi | ⟨hr, _, hrem⟩)
+    · rcases h1 i hi with hr | ha
+      · exact Or.inl ⟨hr, fun hrm => (h3 i hrm).1 hi⟩
+      · by_cases hr : i ∈ rows
+        · exact Or.inl ⟨hr, fun hrm => (h3 i hrm).1 hi⟩
+        · exact Or.inr ⟨ha, hr⟩
+    · exact Or.inl ⟨hr, hrem⟩
+  · rintro (⟨hr, hrem⟩ | ⟨ha, _⟩)
+    · by_cases hi : i ∈ p.items
+      · exact Or.inl hi
+      · exact Or.inr ⟨hr, hi, hrem⟩
+    · exact Or.inl (h2 i ha)
+
+/-- the phantom check must use the MEMBER's own additions: with the additions of the collection that triggered the load (a loop-variable
+    slip) a sibling holding an unflushed addition is reported as a phantom — the batch raises where one-by-one loading answers -/
+theorem C23_batch_merge_needs_own_added :
+    ∃ (rows : List Oid) (p : Pending) (other : List Oid), PendingOk rows p ∧ (∃ ph, mergeLinks rows p other = .error ph) :=
+  ⟨[1, 2], ⟨[3], [3], []⟩, [], ⟨by decide, by decide, by decide⟩, ⟨3, by simp [mergeLinks]⟩⟩
+
+example : mergeLinks [1, 2] ⟨[1, 3], [3], [2]⟩ [3] = .ok [1, 3] ∧ PendingOk [1, 2] ⟨[1, 3], [3], [2]⟩ := by
+  refine ⟨by simp [mergeLinks], by decide, by decide, by decide⟩
+
 /-- the hypotheses are satisfiable by a non-trivial state: after loading part of a collection and one attribute the
     session is coherent and non-empty, and the shortcut branches are taken -/
 example :
